@@ -26,6 +26,7 @@ import (
 	"reflect"
 	"strconv"
 	"strings"
+	"unicode/utf8"
 
 	cbor "github.com/fxamacker/cbor/v2"
 	"github.com/veraison/eat"
@@ -446,8 +447,8 @@ func l3decodeLeaf(it *vItem, fp interface{}) error {
 			*p = nil
 			return nil
 		}
-		if it.kind != ikTstr {
-			return errL3
+		if it.kind != ikTstr || !utf8.ValidString(it.s) {
+			return errL3 // the decoder rejects text strings that are not valid UTF-8
 		}
 		s := it.s
 		*p = &s
@@ -455,7 +456,7 @@ func l3decodeLeaf(it *vItem, fp interface{}) error {
 		if null {
 			return nil
 		}
-		if it.kind != ikTstr {
+		if it.kind != ikTstr || !utf8.ValidString(it.s) {
 			return errL3
 		}
 		*p = it.s
@@ -547,7 +548,7 @@ func l3decodeLeaf(it *vItem, fp interface{}) error {
 			*p = nil
 			return nil
 		}
-		if it.kind != ikTstr {
+		if it.kind != ikTstr || !utf8.ValidString(it.s) {
 			return errL3 // (an OID profile is a bstr: outside the model, reported as an error)
 		}
 		prof := ndProfileOf(it.s)
